@@ -14,11 +14,11 @@ package engine
 //@ ensures [token-only-with-ammo] ev(token) - old(ev(token)) <= ev(acquire_ok) - old(ev(acquire_ok))
 //@ ensures [shot-or-discard-per-token] (ev(shoot) - old(ev(shoot))) + (ev(report) - old(ev(report))) <= ev(token) - old(ev(token))
 //@ ensures [no-discard-unless-enabled] imp(!i.discardOverflow, ev(report) == old(ev(report)))
-//@ ensures [request-metric] counterVal[i.metrics.Request] - old(counterVal[i.metrics.Request]) == ev(shoot) - old(ev(shoot))
-//@ ensures [response-metric] counterVal[i.metrics.Response] - old(counterVal[i.metrics.Response]) == ev(shoot) - old(ev(shoot))
+//@ ensures [request-metric] i.metrics.Request.i - old(i.metrics.Request.i) == ev(shoot) - old(ev(shoot))
+//@ ensures [response-metric] i.metrics.Response.i - old(i.metrics.Response.i) == ev(shoot) - old(ev(shoot))
 //@ ensures [out-of-ammo] imp(result == outOfAmmoErr, ev(acquire_ok) == old(ev(acquire_ok)))
 //@ panics ensures [release-per-acquire] ev(release) - old(ev(release)) == ev(acquire_ok) - old(ev(acquire_ok))
-//@ modifies ev(acquire_ok), ev(release), ev(token), ev(shoot), ev(report), counterVal[i.metrics.Request], counterVal[i.metrics.Response]
+//@ modifies ev(acquire_ok), ev(release), ev(token), ev(shoot), ev(report), i.metrics.Request.i, i.metrics.Response.i
 //@ modifies waiter.overdueDuration, waiter.lastNow, waiter.timer, leftOf[waiter.sched], startedOf[waiter.sched], timerDeadline
 //@ at call i.aggregator.Report assert [discarded-sample] arg(s) == box(result_of(netsample.DiscardedShootSample, 0))
 //@ at call i.gun.Shoot assert [ammo-still-held] ev(release) == old(ev(release)) && ev(acquire_ok) == old(ev(acquire_ok)) + 1
@@ -30,23 +30,23 @@ package engine
 //@ props C03 C05 C12 C06
 //@ env i.metrics.Request != i.metrics.Response && i.metrics.InstanceFinish != i.metrics.Request && i.metrics.InstanceFinish != i.metrics.Response
 //@ env i.metrics.InstanceStart != i.metrics.Request && i.metrics.InstanceStart != i.metrics.Response && i.metrics.InstanceStart != i.metrics.InstanceFinish
-//@ ghost dReq = counterVal[i.metrics.Request]
+//@ ghost dReq = i.metrics.Request.i
 //@ loop 0 invariant waiter.lastNow <= now
 //@ loop 0 invariant [release-per-acquire] ev(release) - old(ev(release)) == ev(acquire_ok) - old(ev(acquire_ok))
 //@ loop 0 invariant [token-only-with-ammo] ev(token) - old(ev(token)) <= ev(acquire_ok) - old(ev(acquire_ok))
 //@ loop 0 invariant [shot-or-discard-per-token] (ev(shoot) - old(ev(shoot))) + (ev(report) - old(ev(report))) <= ev(token) - old(ev(token))
-//@ loop 0 invariant [request-metric] counterVal[i.metrics.Request] - old(counterVal[i.metrics.Request]) == ev(shoot) - old(ev(shoot))
-//@ loop 0 invariant [response-metric] counterVal[i.metrics.Response] - old(counterVal[i.metrics.Response]) == ev(shoot) - old(ev(shoot))
-//@ loop 0 invariant counterVal[i.metrics.InstanceFinish] == old(counterVal[i.metrics.InstanceFinish])
+//@ loop 0 invariant [request-metric] i.metrics.Request.i - old(i.metrics.Request.i) == ev(shoot) - old(ev(shoot))
+//@ loop 0 invariant [response-metric] i.metrics.Response.i - old(i.metrics.Response.i) == ev(shoot) - old(ev(shoot))
+//@ loop 0 invariant i.metrics.InstanceFinish.i == old(i.metrics.InstanceFinish.i)
 //@ ensures [release-per-acquire] ev(release) - old(ev(release)) == ev(acquire_ok) - old(ev(acquire_ok))
 //@ ensures [token-only-with-ammo] ev(token) - old(ev(token)) <= ev(acquire_ok) - old(ev(acquire_ok))
 //@ ensures [shot-or-discard-per-token] (ev(shoot) - old(ev(shoot))) + (ev(report) - old(ev(report))) <= ev(token) - old(ev(token))
-//@ ensures [request-metric] counterVal[i.metrics.Request] - old(counterVal[i.metrics.Request]) == ev(shoot) - old(ev(shoot))
-//@ ensures [response-metric-or-failure] counterVal[i.metrics.Response] - old(counterVal[i.metrics.Response]) == ev(shoot) - old(ev(shoot)) || recoverErr != nil
+//@ ensures [request-metric] i.metrics.Request.i - old(i.metrics.Request.i) == ev(shoot) - old(ev(shoot))
+//@ ensures [response-metric-or-failure] i.metrics.Response.i - old(i.metrics.Response.i) == ev(shoot) - old(ev(shoot)) || recoverErr != nil
 //@ ensures [stops-only-when-finished-cancelled-out-of-ammo-or-failed] imp(recoverErr == nil, leftOf[i.schedule] == 0)
-//@ ensures [finish-counted-once] counterVal[i.metrics.InstanceFinish] == old(counterVal[i.metrics.InstanceFinish]) + 1
-//@ modifies ev(acquire_ok), ev(release), ev(token), ev(shoot), ev(report), counterVal[i.metrics.Request], counterVal[i.metrics.Response]
-//@ modifies counterVal[i.metrics.InstanceStart], counterVal[i.metrics.InstanceFinish], leftOf[i.schedule], startedOf[i.schedule], timerDeadline
+//@ ensures [finish-counted-once] i.metrics.InstanceFinish.i == old(i.metrics.InstanceFinish.i) + 1
+//@ modifies ev(acquire_ok), ev(release), ev(token), ev(shoot), ev(report), i.metrics.Request.i, i.metrics.Response.i
+//@ modifies i.metrics.InstanceStart.i, i.metrics.InstanceFinish.i, leftOf[i.schedule], startedOf[i.schedule], timerDeadline
 
 // ---------------------------------------------------------------- instance creation / start-up (C11, C12)
 
